@@ -9,7 +9,14 @@ A. Translation validation.  harness/c01/gen2.py draws programs from a typed gram
 B. Proved component.  Model/OrderFix.lean mirrors internal/build/ssa_order_fix.go fixSSAOrderBlock; Props/C01.lean proves
    fixOrder_safe for all blocks; harness/c01/main.go runs the REAL pass (overlay accessor) on go/ssa built in-process from
    generated functions and the instruction orders are compared with the model; the real output is also judged against the
-   specification (permutation / only designated loads move / crossing rule) here in Python."""
+   specification (permutation / only designated loads move / crossing rule) here in Python.
+D. Proved component: the Go-type -> raw-type lowering (ssa/type_cvt.go).  Model/TypeCvt.lean mirrors goTypes.cvtType;
+   Props/C01.lean proves that it is lossless and keeps method sets; harness/c01/cvt.go runs the REAL cvtType (overlay accessor)
+   on generated type declarations (harness/c01/tcgen.py); the results are compared with the model and judged against the
+   specification (reads back as the source type; go/types' own method sets of source and lowered type agree).
+E. Proved components of the runtime, driven natively (vlib/native.py): EfaceEqual / nilinterequal / interequal (model
+   Model/EfaceEq.lean, oracle: the host toolchain's == on the same boxed values) and StringIterNext / StringToRunes (model
+   CoreGo.runesOf = C05's enumeration, oracle: the host toolchain's range / []rune) over boundary byte strings."""
 import glob
 import hashlib
 import os
@@ -26,6 +33,8 @@ from vlib.common import run as sh
 
 sys.path.insert(0, os.path.join(VERIF, "harness", "c01"))
 import gen2  # noqa: E402
+import tcgen  # noqa: E402
+from vlib import native  # noqa: E402
 import minimize  # noqa: E402
 import ofgen  # noqa: E402
 from goast import *  # noqa: E402,F401
@@ -215,6 +224,154 @@ func @P@Main() {
 }
 
 ''', "corpus-c5", "generic:local-type-in-closure-shared-across-instantiations", "corpus:generic-local-type"))
+    # c6 (Go text only): methods promoted from an EMBEDDED struct that carries a func-typed field, reached dynamically
+    # (conversion, assertion, type switch): the run-time method table is computed from the LOWERED struct type (ssa/type_cvt.go)
+    out.append(gen2.RawProgram(start_idx + 6, """
+type @P@Base struct {
+	n  int
+	cb func(int) int
+}
+
+func (b @P@Base) Get() int   { return b.n }
+func (b *@P@Base) Set(n int) { b.n = n }
+
+type @P@Outer struct {
+	@P@Base
+	tag int
+}
+type @P@OuterP struct {
+	*@P@Base
+	tag int
+}
+type @P@Deep struct {
+	@P@Outer
+	fs []func() int
+}
+type @P@Plain struct{ n int }
+
+func (p @P@Plain) Get() int { return p.n }
+
+type @P@OuterPlain struct{ @P@Plain }
+type @P@Getter interface{ Get() int }
+type @P@GS interface {
+	Get() int
+	Set(int)
+}
+
+func @P@Kind(a any) string {
+	switch a.(type) {
+	case @P@GS:
+		return "Get+Set"
+	case @P@Getter:
+		return "Get"
+	}
+	return "none"
+}
+
+func @P@Main() {
+	o := @P@Outer{@P@Base{42, func(x int) int { return x + 1 }}, 1}
+	println("static:", o.Get(), o.cb(1))
+	println("kinds:", @P@Kind(o), @P@Kind(&o), @P@Kind(@P@OuterP{&o.@P@Base, 2}), @P@Kind(@P@Deep{o, nil}), @P@Kind(&@P@Deep{o, nil}),
+		@P@Kind(@P@OuterPlain{@P@Plain{3}}), @P@Kind(struct {
+			@P@Base
+			x int
+		}{o.@P@Base, 1}))
+	var g @P@Getter = o
+	println("dynamic:", g.Get())
+	var gs @P@GS = &o
+	gs.Set(7)
+	println("dynamic:", gs.Get(), o.n)
+	var gp @P@GS = @P@OuterP{&o.@P@Base, 2}
+	gp.Set(9)
+	println("dynamic:", gp.Get(), o.n)
+	var gd @P@Getter = @P@Deep{o, []func() int{func() int { return 5 }}}
+	println("dynamic:", gd.Get(), gd.(@P@Deep).fs[0]())
+}
+
+""", "corpus-c6", None, "corpus:promoted-methods-through-func-carrying-embedded-struct"))
+    # c7 (Go text only): `for i, r := range s` over strings that are not well-formed UTF-8, every kind of malformed lead byte
+    out.append(gen2.RawProgram(start_idx + 7, """
+func @P@Show(name string, s string) {
+	n, sum := 0, 0
+	for i, r := range s {
+		print(i, ":", r, " ")
+		n++
+		sum += int(r)
+	}
+	println(name, n, sum, len(s))
+}
+
+func @P@Main() {
+	@P@Show("ascii", "a~\\x7f")
+	@P@Show("valid", "a\\u00e9\\u4e16\\U0001F600")
+	@P@Show("stray-80", "a\\x80b")
+	@P@Show("stray-bf", "\\xbf")
+	@P@Show("overlong", "\\xc0\\x80\\xc1\\xbf")
+	@P@Show("truncated", "\\xe2\\x82")
+	@P@Show("after", "\\xe4\\x80\\x80\\x80")
+	@P@Show("surrogate", "\\xed\\xa0\\x80")
+	@P@Show("too-big", "\\xf4\\x90\\x80\\x80\\xf5\\x80")
+	@P@Show("ff", "a\\xffb")
+	s := "x\\x80"
+	@P@Show("concat", s+s+"\\x80")
+}
+
+""", "corpus-c7", None, "corpus:range-over-malformed-utf8"))
+    # c8 (Go text only): an interface value compared with ITSELF / a copy: NaN inside is not equal to itself, a value of an
+    # uncomparable dynamic type panics - also when both operands are one box
+    out.append(gen2.RawProgram(start_idx + 8, """
+type @P@Pt struct {
+	x float64
+	y int
+}
+
+func @P@Eq(a, b any) (r string) {
+	defer func() {
+		if recover() != nil {
+			r = "panic"
+		}
+	}()
+	if a == b {
+		return "true"
+	}
+	return "false"
+}
+
+func @P@Main() {
+	z := 0.0
+	nan := z / z
+	var f any = nan
+	g := f
+	println("nan:", @P@Eq(f, f), @P@Eq(f, g), @P@Eq(any(nan), any(nan)), f == f, f != g)
+	var p any = @P@Pt{nan, 1}
+	q := p
+	println("struct with nan:", @P@Eq(p, p), @P@Eq(p, q))
+	var arr any = [2]float64{1, nan}
+	println("array with nan:", @P@Eq(arr, arr))
+	var ok any = @P@Pt{1, 2}
+	println("comparable:", @P@Eq(ok, ok), @P@Eq(ok, any(@P@Pt{1, 2})), @P@Eq(ok, p))
+	var s any = []int{1}
+	var fn any = func() {}
+	var b any = struct {
+		a int
+		s []int
+	}{1, nil}
+	var in any = struct{ v any }{nan}
+	var in2 any = struct{ v any }{[]int{1}}
+	println("uncomparable:", @P@Eq(s, s), @P@Eq(fn, fn), @P@Eq(b, b), @P@Eq(in, in), @P@Eq(in2, in2), @P@Eq(s, fn))
+	vals := []any{nan, 1, "x", nan}
+	cnt := 0
+	for i := range vals {
+		for j := range vals {
+			if @P@Eq(vals[i], vals[j]) == "true" {
+				cnt++
+			}
+		}
+	}
+	println("equal pairs:", cnt)
+}
+
+""", "corpus-c8", None, "corpus:interface-compared-with-itself"))
     return out
 
 
@@ -446,11 +603,18 @@ def of_spec(before, after):
     return None
 
 
+def build_harness(ctx):
+    if getattr(ctx, "c01_harness", None) is None:
+        ctx.c01_harness = build_go_harness(ctx, "c01", overlay={
+            "internal/build/zz_verif_c01_export.go": "overlay/zz_verif_c01_export.go.txt",
+            "ssa/zz_verif_c01_cvt.go": "overlay/zz_verif_c01_cvt.go.txt",
+            "ssa/zz_verif_opaque.go": os.path.join(VERIF, "harness", "e2e", "overlay", "zz_verif_opaque.go.txt")}, tags="llvm14,verif")
+    return ctx.c01_harness
+
+
 def part_b(ctx, modeld, extra_sources):
     quick = ctx.tier == "quick"
-    harness = build_go_harness(ctx, "c01", overlay={
-        "internal/build/zz_verif_c01_export.go": "overlay/zz_verif_c01_export.go.txt",
-        "ssa/zz_verif_opaque.go": os.path.join(VERIF, "harness", "e2e", "overlay", "zz_verif_opaque.go.txt")}, tags="llvm14,verif")
+    harness = build_harness(ctx)
     d = os.path.join(ctx.scratch, "orderfix")
     os.makedirs(d, exist_ok=True)
     srcs = []
@@ -492,7 +656,6 @@ def part_b(ctx, modeld, extra_sources):
         ctx.broken.append("correspondence fixSSAOrderBlock real vs Lean model: %d blocks differ" % mism)
         if not ctx.violations:
             ctx.report_broken("correspondence C01 fixSSAOrderBlock real-vs-model", first)
-    ctx.c01_harness = harness
     return {"orderfix_blocks": len(rows), "orderfix_blocks_with_moves": moved, "orderfix_mismatches": mism, "orderfix_spec_failures": spec_fail,
             "orderfix_sample": rows[3][:3] if len(rows) > 3 else None}
 
@@ -563,13 +726,345 @@ def part_c(ctx, modeld, harness, sources):
             "blocks_sample": rows[5] if len(rows) > 5 else None}
 
 
+
+# --------------------------------------------------------------------------------------------- part D: Go type -> raw type
+TC_CORPUS = """package tc
+
+import "unsafe"
+
+var _ unsafe.Pointer
+
+// the shape of seeded change C01-4: an embedded struct that carries a func-typed field, promoted methods
+type Base struct { N int; Fn func(int) int }
+func (b Base) Get() int { return b.N }
+func (b *Base) Set(n int) { b.N = n }
+
+type Outer struct { Base; Tag int `json:"tag"` }
+type OuterP struct { *Base; Tag int }
+type Deep struct { Outer; X []func() }
+type Plain struct { N int }
+func (p Plain) Get() int { return p.N }
+type OuterPlain struct { Plain; F func() }
+
+type I interface { Get() int }
+type Carrier struct { I; cb map[string][]func(I) Carrier }
+type Fn func(Outer) (*Deep, error2)
+type error2 interface { Error() string; Unwrap() func() error2 }
+type Rec struct { next *Rec; f func(*Rec) Rec2 }
+type Rec2 struct { r Rec; _ func() `k:"v"` }
+type Alias2 Rec2
+type Arr [2]struct { Base; g chan func() }
+
+var V0 struct { Outer; Y int }
+var V1 struct { *Deep }
+var V2 []map[int]*Outer
+var V3 func(...Base) (Outer, func())
+var V4 interface { M(func(Base)) Outer }
+"""
+
+
+def sx_parse(text):
+    import re
+    toks = re.findall(r"\(|\)|[^\s()]+", text)
+    pos = 0
+
+    def p():
+        nonlocal pos
+        t = toks[pos]
+        pos += 1
+        if t == "(":
+            l = []
+            while toks[pos] != ")":
+                l.append(p())
+            pos += 1
+            return l
+        return t
+    out = []
+    while pos < len(toks):
+        out.append(p())
+    return out
+
+
+def tc_unlower(t):
+    """SPECIFICATION side, written independently of the Lean model: a raw type read back as a Go type (closure structs are
+    func types, raw twins their declarations).  The lowering may lose nothing else."""
+    h = t[0]
+    if h == "b":
+        return t
+    if h in ("p", "sl"):
+        return [h, tc_unlower(t[1])]
+    if h in ("ar", "ch"):
+        return [h, t[1], tc_unlower(t[2])]
+    if h == "m":
+        return ["m", tc_unlower(t[1]), tc_unlower(t[2])]
+    if h == "n":
+        return ["n", t[1], "0"]
+    if h == "f":
+        return ["f", [tc_unlower(x) for x in t[1]], [tc_unlower(x) for x in t[2]], t[3]]
+    if h == "st":
+        fs = t[1:]
+        if len(fs) == 2 and fs[0][0] == "$f" and fs[0][1][0] == "f" and fs[1][0] == "$data" and fs[1][1] == ["b", "Pointer"]:
+            return tc_unlower(fs[0][1])
+        return ["st"] + [[f[0], tc_unlower(f[1]), f[2], f[3]] for f in fs]
+    if h == "if":
+        return ["if"] + [[f[0], tc_unlower(f[1]), f[2], f[3]] for f in t[1:]]
+    raise ValueError(t)
+
+
+def tc_first_loss(src, back, path="T"):
+    """where a lowered type, read back, differs from the source type"""
+    if src == back:
+        return None
+    if isinstance(src, str) or isinstance(back, str):
+        return "%s: %r became %r" % (path, src, back)
+    if src and back and isinstance(src[0], str) and isinstance(back[0], str):
+        if src[0] != back[0] or len(src) != len(back):
+            return "%s: %s with %d parts became %s with %d parts" % (path, src[0], len(src) - 1, back[0], len(back) - 1)
+        if src[0] in ("st", "if"):
+            for x, y in zip(src[1:], back[1:]):
+                if x[0] != y[0]:
+                    return "%s: field %s renamed %s" % (path, x[0], y[0])
+                if x[2] != y[2]:
+                    return "%s: field %s: embedded flag %s became %s" % (path, x[0], x[2], y[2])
+                if x[3] != y[3]:
+                    return "%s: field %s: tag changed" % (path, x[0])
+                r = tc_first_loss(x[1], y[1], path + "." + x[0])
+                if r:
+                    return r
+            return None
+        for x, y in zip(src[1:], back[1:]):
+            r = tc_first_loss(x, y, path)
+            if r:
+                return r
+        return None
+    if len(src) != len(back):
+        return "%s: arity %d became %d" % (path, len(src), len(back))
+    for x, y in zip(src, back):
+        r = tc_first_loss(x, y, path)
+        if r:
+            return r
+    return None
+
+
+def tc_rebuilt_embedded(t):
+    """does the lowered type contain an EMBEDDED field whose type was rebuilt (raw twin or closure inside)?"""
+    if isinstance(t, str) or not t:
+        return False
+    if t[0] == "st":
+        for f in t[1:]:
+            if f[2] == "1" and ("$f" in str(f[1]) or (f[1][0] == "n" and f[1][2] == "1") or (f[1][0] == "p" and f[1][1][0] == "n" and f[1][1][2] == "1")):
+                return True
+    return any(tc_rebuilt_embedded(x) for x in t[1:] if isinstance(x, list))
+
+
+def part_d(ctx, modeld, harness):
+    import re
+    quick = ctx.tier == "quick"
+    d = os.path.join(ctx.scratch, "typecvt")
+    os.makedirs(d, exist_ok=True)
+    texts = {}
+    fn = os.path.join(d, "corpus.go")
+    texts[fn] = TC_CORPUS
+    for k in range(60 if quick else 1500):
+        fn = os.path.join(d, "p%d.go" % k)
+        texts[fn] = tcgen.source(ctx.rng_de)
+    for fn, t in texts.items():
+        with open(fn, "w") as f:
+            f.write(t)
+    files = list(texts)
+    out = []
+    for i in range(0, len(files), 200):
+        p = sh([harness, "-cvt"] + files[i:i + 200], timeout=600)
+        if p.returncode != 0:
+            raise HarnessBuildError("type-lowering harness failed (generator or harness bug):\n%s" % p.stderr[-2000:])
+        out += p.stdout.split("\n")
+    reqs = [l for l in out if l.startswith("REQ ")]
+    skipped = [l for l in out if l.startswith("SKIP ")]
+    if len(skipped) * 4 > len(files):          # the generator, not llgo, is wrong: a machinery error, never a verdict
+        raise RuntimeError("harness/c01/tcgen.py: %d of %d generated files do not type-check, e.g. %s" % (len(skipped), len(files), skipped[0][:300]))
+    for l in skipped:
+        ctx.log("part D: generated file skipped (does not type-check: generator bug):", l[:200])
+    res, twins = {}, {}
+    for l in out:
+        if l.startswith("RES "):
+            f = l.split(" | ")
+            res.setdefault(f[0].split(" ")[1], []).append(f)
+        elif l.startswith("TWIN "):
+            f = l.split(" | ")
+            twins.setdefault(f[0].split(" ")[1], []).append(f[1])
+    model, rc, err = run_lines([modeld], ["cvt " + r.split(" | ", 1)[1] for r in reqs])
+    if len(model) != len(reqs):
+        raise RuntimeError("modeld_c01 died on the cvt lines: %s" % err[-1000:])
+    norm = lambda x: re.sub(r"\(n (\d+) [01]\)", r"(n \1)", x)     # which named references are raw twins depends on the memo order
+    ntypes = changed = emb_rebuilt = spec_fail = mism = 0
+    first_mism = None
+    failures = []
+    for rq, m in zip(reqs, model):
+        fn = rq.split(" ")[1]
+        mres = [x.rsplit(" ", 1)[0] for x in m.split(" || ")[0].split(" | ")] if " || " in m or " | " in m or m.startswith("(") else []
+        for j, r in enumerate(res.get(fn, [])):
+            ntypes += 1
+            gotype, src, raw, ch = r[1], r[2], r[3], r[4]
+            if ch == "1":
+                changed += 1
+            why = None
+            try:
+                s_src, s_raw = sx_parse(src)[0], sx_parse(raw)[0]
+                if ch == "1" and tc_rebuilt_embedded(s_raw):
+                    emb_rebuilt += 1
+                back = tc_unlower(s_raw)
+                if back != s_src:
+                    why = "the lowered type does not read back as the source type: " + (tc_first_loss(s_src, back) or "structure differs")
+                elif ch == "0" and s_raw != s_src:
+                    why = "cvtType reports no change but returns a different type"
+            except (ValueError, IndexError) as e:
+                why = "unreadable type rendering: %r" % (e,)
+            if why is None and (r[5] != r[6] or r[7] != r[8]):
+                why = "method sets differ: go/types gives {%s} for T and {%s} for *T on the source type, {%s} and {%s} on the lowered type" % (r[5], r[7], r[6], r[8])
+            if why:
+                spec_fail += 1
+                failures.append((len(texts[fn]) + len(src), fn, gotype, src, raw, ch, why, r[5:9]))
+            if j >= len(mres) or norm(mres[j]) != norm(raw):
+                mism += 1
+                first_mism = first_mism or {"file": texts[fn], "type": gotype, "src": src, "real": raw, "model": mres[j] if j < len(mres) else m[:300]}
+    failures.sort()
+    for (_, fn, gotype, src, raw, ch, why, ms) in failures[:3]:
+        ctx.report("typecvt:" + hashlib.sha256((gotype + "|" + raw).encode()).hexdigest()[:16],
+                   "ssa/type_cvt.go cvtType on `%s`: %s" % (gotype[:200], why),
+                   {"go_source": texts[fn], "type": gotype, "source_type": src, "lowered_type": raw, "changed": ch,
+                    "method_sets": {"T source": ms[0], "T lowered": ms[1], "*T source": ms[2], "*T lowered": ms[3]}, "why": why,
+                    "how": "type-check go_source, call goTypes.cvtType on the types in source order (harness/c01/cvt.go: harness.bin -cvt file.go)"})
+    if mism:
+        ctx.broken.append("correspondence cvtType real vs Lean model: %d types differ" % mism)
+        if not ctx.violations:
+            ctx.report_broken("correspondence C01 cvtType real-vs-model", first_mism)
+    return {"typecvt_packages": len(reqs), "typecvt_files_skipped": len(skipped), "typecvt_types": ntypes, "typecvt_types_changed": changed, "typecvt_changed_with_embedded_field": emb_rebuilt,
+            "typecvt_spec_failures": spec_fail, "typecvt_mismatches": mism,
+            "typecvt_sample": (res.get(files[0], [[None] * 5])[1][1:5] if len(res.get(files[0], [])) > 1 else None)}
+
+
+# --------------------------------------------------------------------------------------------- part E: runtime routines, natively
+RT_FILES = ["map.go", "alg.go", "hash64.go", "z_map.go", "type.go", "errors.go", "z_face.go", "z_type.go",
+            "mbarrier.go", "z_error.go", "z_slice.go", "z_string.go", "utf8.go", "stubs.go"]
+# bytes around every boundary of the UTF-8 decoder: ASCII edge, continuation range, overlong leads, 2/3/4-byte leads and
+# their special second bytes (E0 A0, ED 9F/A0, F0 90, F4 8F/90), first invalid leads
+ITER_ALPHABET = [0x00, 0x41, 0x7f, 0x80, 0x81, 0x8f, 0x90, 0x9f, 0xa0, 0xbf, 0xc0, 0xc1, 0xc2, 0xdf, 0xe0, 0xe1, 0xec, 0xed, 0xee, 0xef,
+                 0xf0, 0xf1, 0xf3, 0xf4, 0xf5, 0xf7, 0xf8, 0xff]
+
+
+def iter_inputs(ctx):
+    import itertools
+    quick = ctx.tier == "quick"
+    out = [b""]
+    for n in (1, 2, 3) if quick else (1, 2, 3, 4):
+        out += [bytes(t) for t in itertools.product(ITER_ALPHABET, repeat=n)]
+    pieces = [bytes([b]) for b in ITER_ALPHABET] + ["é".encode(), "世".encode(), "\U0001F600".encode(), b"\xed\xa0\x80", b"\xf4\x90\x80\x80", b"\xe0\x9f\xbf",
+                                                    b"\xc0\x80", b"\xef\xbf\xbd", b"\xf0\x90\x80\x80", b"\xf4\x8f\xbf\xbf", b"ab"]
+    for _ in range(3000 if quick else 60000):
+        out.append(b"".join(ctx.rng_de.choice(pieces) for _ in range(ctx.rng_de.randint(2, 6))))
+    return out
+
+
+def part_e(ctx, modeld):
+    H = os.path.join(VERIF, "harness", "c01", "native")
+    nat = native.make_native(ctx, RT_FILES, {"zz_support.go": native.RT_SUPPORT, "zz_c01.go": open(os.path.join(H, "rt_c01.go.txt")).read()},
+                             {"main.go": open(os.path.join(H, "main.go.txt")).read()}, name="native-c01")
+    # ---- interface equality
+    p = sh([nat, "eq"], timeout=600)
+    if p.returncode != 0:
+        raise HarnessBuildError("native interface-equality harness failed:\n%s" % p.stderr[-2000:])
+    rows = [l.split(" | ") for l in p.stdout.split("\n") if l.startswith("eq ")]
+    model, rc, err = run_lines([modeld], ["efeq " + r[3] for r in rows])
+    if len(model) != len(rows):
+        raise RuntimeError("modeld_c01 died on the efeq lines: %s" % err[-1000:])
+    routines = ["EfaceEqual", "nilinterequal", "interequal"]
+    eq_fail, eq_mism, reported, first_mism = 0, 0, {}, None
+    classes = set()
+    for r, m in zip(rows, model):
+        i, j = r[0].split(" ")[1:3]
+        real, host = r[4].split(" "), r[5]
+        same = r[3].split(" ")[4] == "1"
+        classes.add((r[1], r[2], same))
+        mm = m.split(" ")
+        mm = [mm[0], mm[1], mm[1]] if len(mm) == 2 else ["?", "?", "?"]
+        for k, name in enumerate(routines):
+            if real[k] != host:
+                eq_fail += 1
+                if reported.get((name, host), 0) < 1:          # one report per routine and expected answer (false: NaN inside; panic: uncomparable)
+                    reported[(name, host)] = 1
+                    words = {"t": "true", "f": "false", "p": "a run-time panic"}
+                    ctx.report("ifaceeq:%s:%s==%s:%s" % (name, r[1], r[2], "same-box" if same else "other-box"),
+                               "runtime %s on two interface values holding %s and %s (%s): the runtime answers %s, Go (reference toolchain) %s"
+                               % (name, r[1], r[2], "the SAME data word: x == x or a copy y := x" if same else "different data words", words.get(real[k], real[k]), words.get(host, host)),
+                               {"routine": name, "left": r[1], "right": r[2], "same_data_word": same, "abstract (tidL tidR hasEqual direct sameWord Equal())": r[3],
+                                "runtime": real[k], "reference": host, "catalogue_indices": [int(i), int(j)],
+                                "how": "harness/c01/native: native.bin eq (catalogue in rt_c01.go.txt)"})
+            elif mm[k] != real[k]:
+                eq_mism += 1
+                first_mism = first_mism or {"routine": name, "left": r[1], "right": r[2], "abstract": r[3], "real": real[k], "model": mm[k]}
+    # ---- string iteration
+    strs = iter_inputs(ctx)
+    lines = [(s.hex() or "-") for s in strs]
+    p = subprocess.run([nat, "iter"], input="\n".join(lines) + "\n", capture_output=True, text=True, timeout=1200)
+    if p.returncode != 0:
+        raise HarnessBuildError("native string-iteration harness failed:\n%s" % p.stderr[-2000:])
+    rows2 = [l.split(" | ") for l in p.stdout.split("\n") if l.startswith("iter ")]
+    model2, rc, err = run_lines([modeld], ["iter " + h for h in lines])
+    if len(model2) != len(lines) or len(rows2) != len(lines):
+        raise RuntimeError("string-iteration lines lost: %d inputs, %d real, %d model: %s" % (len(lines), len(rows2), len(model2), err[-500:]))
+    it_fail, it_mism, bad, first_mism2, invalid = 0, 0, [], None, 0
+    for h, r, m in zip(lines, rows2, model2):
+        real_it, real_conv, host_it, host_conv = r[1], r[2], r[3], r[4]
+        if "65533" in host_it:
+            invalid += 1
+        if real_it != host_it or real_conv != host_conv:
+            it_fail += 1
+            bad.append((len(h), h, real_it, real_conv, host_it, host_conv))
+        elif m != real_it:
+            it_mism += 1
+            first_mism2 = first_mism2 or {"string_hex": h, "real": real_it, "model": m}
+    bad.sort()
+    for (_, h, real_it, real_conv, host_it, host_conv) in bad[:3]:
+        which = "for i, r := range s (StringIterNext)" if real_it != host_it else "[]rune(s) (StringToRunes)"
+        ctx.report("striter:" + h, "%s on the string with bytes %s: the runtime gives %s, Go (reference toolchain) %s"
+                   % (which, h, real_it if real_it != host_it else real_conv, host_it if real_it != host_it else host_conv),
+                   {"string_hex": h, "runtime index:rune": real_it, "reference index:rune": host_it, "runtime []rune": real_conv, "reference []rune": host_conv,
+                    "how": "harness/c01/native: echo %s | native.bin iter" % h})
+    if eq_mism or it_mism:
+        ctx.broken.append("correspondence runtime routines real vs Lean model: %d interface comparisons, %d strings differ" % (eq_mism, it_mism))
+        if not ctx.violations:
+            ctx.report_broken("correspondence C01 runtime-routines real-vs-model", first_mism or first_mism2)
+    return {"ifaceeq_pairs": len(rows), "ifaceeq_classes": len(classes), "ifaceeq_spec_failures": eq_fail, "ifaceeq_mismatches": eq_mism,
+            "ifaceeq_sample": rows[150][1:] if len(rows) > 150 else None,
+            "striter_strings": len(lines), "striter_strings_with_invalid_utf8": invalid, "striter_spec_failures": it_fail, "striter_mismatches": it_mism,
+            "striter_sample": rows2[4000][:4] if len(rows2) > 4000 else None}
+
+
 # --------------------------------------------------------------------------------------------- the check
 def run_check(ctx, args):
     quick = ctx.tier == "quick"
     st = lean_check(ctx, ["LlgoVerif.Props.C01"], ["LlgoVerif/Props/C01.lean"],
                     extra_files=["LlgoVerif/Model/CoreGo.lean", "LlgoVerif/Model/OrderFix.lean", "LlgoVerif/Model/Blocks.lean",
-                                 "LlgoVerif/Lemmas/CoreGo.lean", "LlgoVerif/Lemmas/OrderFix.lean", "LlgoVerif/Lemmas/Blocks.lean"], leanchecker=(ctx.tier == "thorough"))
+                                 "LlgoVerif/Model/TypeCvt.lean", "LlgoVerif/Model/EfaceEq.lean",
+                                 "LlgoVerif/Lemmas/CoreGo.lean", "LlgoVerif/Lemmas/OrderFix.lean", "LlgoVerif/Lemmas/Blocks.lean",
+                                 "LlgoVerif/Lemmas/TypeCvt.lean", "LlgoVerif/Lemmas/IfaceEq.lean", "LlgoVerif/Lemmas/StrRange.lean"],
+                    leanchecker=(ctx.tier == "thorough"))
     modeld = build_driver(ctx, "modeld_c01")
+    # the cheap, direct ties first (parts D and E): a concrete small failing input is on the screen within two minutes.
+    # They draw from a stream of their own, derived from the run's seed, so that part A generates the same programs whether
+    # or not D/E ran (VERIF_C01_ONLY, later additions)
+    ctx.rng_de = random.Random("C01/DE/%d" % ctx.seed)
+    t0 = time.time()
+    covd = part_d(ctx, modeld, build_harness(ctx))
+    ctx.log("part D (type lowering): %d types of %d packages, %d changed, %d spec failures, %d model mismatches, %.0fs"
+            % (covd["typecvt_types"], covd["typecvt_packages"], covd["typecvt_types_changed"], covd["typecvt_spec_failures"], covd["typecvt_mismatches"], time.time() - t0))
+    t0 = time.time()
+    cove = part_e(ctx, modeld)
+    ctx.log("part E (runtime routines, native): %d interface comparisons (%d spec failures), %d strings (%d spec failures), %.0fs"
+            % (cove["ifaceeq_pairs"], cove["ifaceeq_spec_failures"], cove["striter_strings"], cove["striter_spec_failures"], time.time() - t0))
+    if os.environ.get("VERIF_C01_ONLY") == "DE":          # development aid: the direct ties only (the evidence is then partial)
+        ctx.coverage["samples"] = [covd.get("typecvt_sample"), cove.get("ifaceeq_sample"), cove.get("striter_sample")]
+        return ctx.finish("translation_validation", dict(covd, **cove, partial_run="parts D and E only (VERIF_C01_ONLY=DE)"))
     build_llgo(ctx)
     bench = Bench(ctx, modeld)
 
@@ -679,6 +1174,10 @@ def run_check(ctx, args):
         "model disagreement",
         "only `-tags nogc` is available in the sandbox: the gc/nogc dimension of the property is NOT exercised; only amd64 executes",
         "order fix-up tie: the abstraction of go/ssa instructions (id:kind:uses) is computed by harness/c01/main.go",
+        "type-lowering tie (part D): the rendering of go/types values as s-expressions (harness/c01/cvt.go) and go/types.NewMethodSet as the "
+        "reference for method sets; which named references are raw twins depends on the memo order and is not compared",
+        "runtime-routine tie (part E): hand-built type descriptors of the shape ssa/abitype.go emits (harness/c01/native/rt_c01.go.txt); the host "
+        "toolchain's == / range / []rune as the reference",
         "an LLVM 14 crash inside LLVMRunPasses (experimental opaque-pointer mode, sandbox-only toolchain) is recorded as toolchain_crash, not judged",
     ]
     ctx.assumptions += [
@@ -697,6 +1196,10 @@ def run_check(ctx, args):
            "build_failures": len(bench.build_failures), "large_value_programs_O0_only": stats.get("large_value_programs_O0_only", 0),
            "aux_modules": stats.get("aux_modules", 0)}
     cov.update(covb)
+    cov.update(covd)
+    cov.update(cove)
+    cov["evaluations"] += covd["typecvt_types"] + cove["ifaceeq_pairs"] * 3 + cove["striter_strings"]
+    cov["rule"] += "; plus one evaluation per lowered type (part D), per interface comparison and routine (part E) and per iterated string (part E)"
     return ctx.finish("translation_validation", cov)
 
 
